@@ -22,6 +22,7 @@ import (
 	"github.com/mycoria/mycoria/m"
 
 	"mycoverif/core"
+	"mycoverif/ident"
 	"mycoverif/mesh"
 	"mycoverif/simnet"
 )
@@ -352,6 +353,39 @@ func run(e *core.Env) {
 				e.Fail("", "")
 			}
 			e.Probe("route_refreshed_with_changed_labels")
+		}
+	}
+	if tp.Chance(1, 3) {
+		// The table already holds three worse routes to the destination (detours over one
+		// further router each, learned in an earlier round): the path under test is the fourth,
+		// better one and takes the place of the worst.
+		filled := 0
+		for k := 0; k < 3; k++ {
+			detour := ident.Get(ident.Routable, 300+k)
+			at := 1 + tp.Intn(n-1)
+			dh := append([]m.SwitchHop(nil), hops[:at]...)
+			dh = append(dh, m.SwitchHop{Router: detour.IP, ForwardLabel: drawLabel(tp), ReturnLabel: drawLabel(tp), Delay: uint16(1 + tp.Intn(20))})
+			dh = append(dh, hops[at:]...)
+			if needBytes(dh) > 255 {
+				continue
+			}
+			sp := m.SwitchPath{Hops: dh}
+			sp.CalculateTotals()
+			ok := false
+			e.Guard("panic-in-AddRoute", func() {
+				ok, _ = src.Router.Table().AddRoute(m.RoutingTableEntry{
+					DstIP: dst.IP, NextHop: dh[1].Router, Path: sp, Source: m.RouteSourceGossip, Expires: time.Now().Add(30 * time.Minute),
+				})
+			})
+			if e.Failed() {
+				e.Fail("", "")
+			}
+			if ok {
+				filled++
+			}
+		}
+		if filled == 3 {
+			e.Probe("fourth_better_route_replaces_the_worst_of_three")
 		}
 	}
 	if e.Guard("panic-in-AddRoute", func() {
